@@ -92,7 +92,7 @@ def snapshot(ip, st, v):
             t = type_of(v, st)
             if t is not None:
                 return Sym(lift(v, st, t), t)
-        return deep_copy(ip, st, v, {})
+        return deep_copy(ip, st, v, {}, engine=True)
     return v
 
 
@@ -265,10 +265,14 @@ def apply_contract(ip, con, fr, args, kwargs, st, node=None):
         # havoc
         from .loops import havoc_object
         for m in con.modifies:
+            mtypes = {}
+            if ':' in m:
+                m, mt = m.split(':', 1)
+                mtypes[m] = mt
             node = ast.parse(m, mode='eval').body
             ref = ip.eval_spec(node, st, {})
             if isinstance(ref, Ref):
-                havoc_object(ip, st, ref, m, {})
+                havoc_object(ip, st, ref, m, mtypes)
             elif isinstance(node, ast.Attribute):
                 base = ip.eval_spec(node.value, st, {})
                 t = type_of(ref, st)
